@@ -1,6 +1,8 @@
 import fractions
+import logging
 from typing import Optional, cast
 
+import av
 from av import AudioFrame, AudioResampler, CodecContext
 from av.frame import Frame
 from av.packet import Packet
@@ -13,6 +15,8 @@ SAMPLE_RATE = 48000
 SAMPLES_PER_FRAME = 960
 TIME_BASE = fractions.Fraction(1, SAMPLE_RATE)
 
+logger = logging.getLogger(__name__)
+
 
 class OpusDecoder(Decoder):
     def __init__(self) -> None:
@@ -22,10 +26,16 @@ class OpusDecoder(Decoder):
         self.codec.sample_rate = SAMPLE_RATE
 
     def decode(self, encoded_frame: JitterFrame) -> list[Frame]:
-        packet = Packet(encoded_frame.data)
-        packet.pts = encoded_frame.timestamp
-        packet.time_base = TIME_BASE
-        return cast(list[Frame], self.codec.decode(packet))
+        try:
+            packet = Packet(encoded_frame.data)
+            packet.pts = encoded_frame.timestamp
+            packet.time_base = TIME_BASE
+            return cast(list[Frame], self.codec.decode(packet))
+        except av.FFmpegError as e:
+            logger.warning(
+                "OpusDecoder() failed to decode, skipping package: " + str(e)
+            )
+            return []
 
 
 class OpusEncoder(Encoder):
